@@ -221,15 +221,15 @@ ADD = {
  "C04": " Added: the case FixChoice implies is a plain case (no list attributes, type, rpc part, key or errors); every augment of a pass is merged, refused with an error, reported or kept (ghost call counters), never silently skipped; the stand-in walks every module by object (two revisions of one name are two trees), shorthand lists and leaf-lists under choices, augments whose body is a missing grouping, bare actions.",
  "C05": " Added: a fixed set with the same identity in two revisions of one module (an open finding: KNOWN-FINDING line, see C11). errorSort is under contract: every sorted error is kept or deeply equal to the one kept last, what is kept stays, a list of at most one error comes back as it is (sort.Sort and reflect.DeepEqual assumed).",
  "C06": " Added: fixed cases for the extension list of a uses entry (own array per use) and for a prefix that only an included submodule binds (must be an error). Repaired on the way: a grouping defined inside grouping k may use k; a submodule uses the groupings of its module.",
- "C07": " Added: merge is called only when none of the augment's names is taken in the target (never half applied; taken / refuse under contract), not for anydata / anyxml targets; every augment of a pass is merged, refused, reported or kept (ghost call counters).",
- "C08": " Added: the loop may also write the rpc input/output of the target's parent (not-supported on an rpc's input or output); fixed cases for that and for two revisions of one deviating module (both applied, in every run). Now also proved: the values written by the loop (config, mandatory, defaults on replace / add / delete, element bounds, units, type) are those of the deviate statement, per iteration.",
+ "C07": " Added: merge is called only when none of the augment's names is taken in the target (never half applied; taken / refuse under contract), not for anydata / anyxml targets; every augment of a pass is merged, refused, reported or kept (ghost call counters). Process's augment loops are under contract as well: every module still listed gets a pass in every round, is dropped from the list exactly when none of its augments was left over, and what is left at the end gets the pass that reports.",
+ "C08": " Added: the loop may also write the rpc input/output of the target's parent (not-supported on an rpc's input or output); fixed cases for that and for two revisions of one deviating module (both applied, in every run). Now also proved: the values written by the loop (config, mandatory, defaults on replace / add / delete, element bounds, units, type) are those of the deviate statement, per iteration. writtenBefore orders by line and then by column (two deviate statements on one line are in written order).",
  "C09": " Added: identityref look-ups and the foreign-name look-up are pinned by call-site assertions (the right function, from the right module, for the type statement itself). From a submodule the binding step also reaches the module it belongs to and that module's submodules (repaired defect; the former open finding is closed).",
  "C11": " Added: identityref types (direct and through typedefs) look their base up with findIdentityBase from the module they are written in (call-site assertions); the stand-in has identityref leaves in every module and random derivation rings with ordinary derivations around them, 6 runs each; one open finding (identities of two revisions of one module collide) with its bounded case. A derivation cycle is reported: an identity among its own derivations has an error appended before the list is stored (call-site assertion and loop invariant in resolveIdentities).",
  "C12": " Added: ro is now the statement read literally (says-false OR in-output; the defect this exposed is repaired), inOutput under contract; Entry.Modules / InstantiatingModule answer for trees not built from a module; own stand-in: ReadOnly and namespace of every node of random schemas (actions below config false / true, config inside outputs, augments) against the model, plus 18 fixed paths. A namespace denotes one module NAME (several revisions of a module share it): FindModuleByNamespace answers with the latest (repaired defect).",
  "C13": " Added: process collects one module per key of the module map and links every collected module (ghost call counter on include); stand-ins: file selection for a module name with a dot, several revisions of one module side by side each compared with what it is alone, and two more open findings (two revisions including one submodule; typedefs / identities of a nested include) with their bounded cases. findInDir is under contract: the result is empty, the exact name, or a file of this directory whose name is the module name followed by what the date-suffix expression matches, and nothing that existed is written (assumed contracts on ioutil, fs, strings, regexp, filepath, sort).",
  "C16": " Added: a foreign type name is looked up and reported for the type statement itself (call-site assertion in Type.resolve); every position named in any error of the semantic-fault texts must be the start of a statement; four foreign-prefix faults. updateCursor is under contract (range over a string is modelled now): every skipped character moves the tab-expanded column as next does, lines and columns are counted in characters.",
  "C17": " Added (proved): an import prefix denotes the module the set holds under the imported name at the time of the call (no stale binding from an earlier run).",
- "C18": " Added: every run also binds imports and includes afresh (call-site assertion: includes empty before process), a module that is filed empties what the namespace lookup remembers (Modules.add), ClearEntryCache also resets the merge marks; histories over layered import sets (so that intermediate runs succeed), longer identity chains, refused texts holding two revisions of one module; four fixed histories (namespace lookup after a later load, imports bound by an earlier run, search path after a refused file, ClearEntryCache after Process) -- all four were defects and are repaired.",
+ "C18": " Added: every run also binds imports and includes afresh (call-site assertion: includes empty before process), a module that is filed empties what the namespace lookup remembers (Modules.add), ClearEntryCache also resets the merge marks; histories over layered import sets (so that intermediate runs succeed), longer identity chains, refused texts holding two revisions of one module; four fixed histories (namespace lookup after a later load, imports bound by an earlier run, search path after a refused file, ClearEntryCache after Process) -- all four were defects and are repaired. Process's augment loops (see C07) and a derivation cycle now and then in the histories (reported by every run).",
  "C19": " Added: iw.Write changes line-state flags only (frame obligation; assumed contract on io.Writer), so a package-level buffer added to it fails; the race stand-in also prints concurrently.",
  "C20": " Added: the frame of Write (line-state flags of indenting writers and nothing else that existed).",
 }
